@@ -807,6 +807,16 @@ func (c *SpecCtx) call(e *SCall) Val {
 		fs := x.te.FloatSort()
 		x.S.DeclareFun("pow10", []string{"Int"}, fs)
 		return specVal("(pow10 "+n.S+")", fs)
+	case "f64bits", "f64frombits":
+		// the uninterpreted pair behind math.Float64bits / Float64frombits
+		v := arg(0)
+		fs := x.te.FloatSort()
+		x.S.DeclareFun("f64bits", []string{fs}, "Int")
+		x.S.DeclareFun("f64frombits", []string{"Int"}, fs)
+		if e.Fn == "f64bits" {
+			return specVal("(f64bits "+v.S+")", "Int")
+		}
+		return specVal("(f64frombits "+v.S+")", fs)
 	case "errors_is":
 		a, b := arg(0), arg(1)
 		x.S.DeclareFun("errors_is", []string{"Int", "Int"}, "Bool")
